@@ -77,8 +77,16 @@ def is_conc(v):
     return isinstance(v, int)
 
 
+_bvv_cache = {}
+
+
 def bvv(n):
-    return z3.BitVecVal(n, W)
+    v = _bvv_cache.get(n)
+    if v is None:
+        v = z3.BitVecVal(n, W)
+        if -1024 <= n <= 70000:
+            _bvv_cache[n] = v
+    return v
 
 
 def bv(v):
